@@ -147,6 +147,89 @@ Proof.
   intros e signers req H a Ha. apply nonopt_addrs_In in Ha as (p & Hp & Ho & <-). auto.
 Qed.
 
+(** ** ValidateScopeValueOwnersSigners *)
+Lemma vo_signers_incl : forall e signers g, In g (vo_signers e signers) -> In g signers.
+Proof.
+  intros e [|s0 t] g H; cbn in *; [exact H|].
+  destruct (is_wasm e s0); [destruct H as [<-|[]]; now left|exact H].
+Qed.
+
+Lemma vo_loop_sound : forall e proposed sg existing used,
+  vo_loop e proposed sg existing = Some used ->
+  (forall x, In x existing -> x <> proposed -> covered e sg x) /\
+  (forall s, In s used -> In s sg /\ exists x, In x existing /\ (x = s \/ granted e x s = true)).
+Proof.
+  intros e proposed sg; induction existing as [|x rest IH]; intros used H; cbn in H.
+  - injection H as <-. split; [intros x []|intros s []].
+  - destruct (Z.eqb_spec x proposed) as [->|Hne].
+    + destruct (IH _ H) as [H1 H2]. split.
+      * intros y [<-|Hy] Hn; [congruence|auto].
+      * intros s Hs. destruct (H2 s Hs) as (Hin & y & Hy & Hor). split; auto. exists y. split; auto. now right.
+    + destruct (mem x sg) eqn:Hm.
+      * destruct (vo_loop e proposed sg rest) as [u|] eqn:HL; [|discriminate]. injection H as <-.
+        destruct (IH _ eq_refl) as [H1 H2]. apply mem_In in Hm. split.
+        -- intros y [<-|Hy] Hn; [now left|auto].
+        -- intros s [<-|Hs]; [split; auto; exists x; split; [now left|now left]|].
+           destruct (H2 s Hs) as (Hin & y & Hy & Hor). split; auto. exists y. split; auto. now right.
+      * destruct (find_grantee e x sg) as [g|] eqn:Hf; [|discriminate].
+        destruct (vo_loop e proposed sg rest) as [u|] eqn:HL; [|discriminate]. injection H as <-.
+        destruct (IH _ eq_refl) as [H1 H2]. apply find_grantee_some in Hf as [Hg1 Hg2]. split.
+        -- intros y [<-|Hy] Hn; [right; exists g; auto|auto].
+        -- intros s [<-|Hs]; [split; auto; exists x; split; [now left|now right]|].
+           destruct (H2 s Hs) as (Hin & y & Hy & Hor). split; auto. exists y. split; auto. now right.
+Qed.
+
+Lemma value_owners_signers_sound : forall e existing proposed signers used,
+  validate_value_owners_signers e existing proposed signers = Some used ->
+  forall x, In x existing -> x <> proposed -> covered e (vo_signers e signers) x.
+Proof.
+  intros e existing proposed signers used H.
+  assert (Hl : vo_loop e proposed (vo_signers e signers) existing = Some used \/
+               exists x, existing = [x] /\ x = proposed).
+  { unfold validate_value_owners_signers in H. destruct existing as [|x [|y t]]; auto.
+    destruct (Z.eqb_spec x proposed); [right; eauto|left; exact H]. }
+  destruct Hl as [Hl|(x & -> & ->)].
+  - exact (proj1 (vo_loop_sound _ _ _ _ _ Hl)).
+  - intros y [<-|[]] Hn. congruence.
+Qed.
+
+Lemma covered_incl : forall e sg sg' a,
+  (forall g, In g sg -> In g sg') -> covered e sg a -> covered e sg' a.
+Proof.
+  intros e sg sg' a Hi [H|(g & Hg & Hgr)]; [left; auto|right; exists g; auto].
+Qed.
+
+Lemma some_addrs_In : forall vos a, In a (some_addrs vos) <-> In (Some a) vos.
+Proof.
+  intros vos a. unfold some_addrs. rewrite in_flat_map. split.
+  - intros ([x|] & Hx & Hin); [destruct Hin as [->|[]]; exact Hx|destruct Hin].
+  - intros H. exists (Some a). split; auto. now left.
+Qed.
+
+(** MsgUpdateValueOwners: every current value owner is one of the signers that count (all of
+    them, or only the first when that is a smart contract) or has granted to one. *)
+Lemma update_value_owners_sound : forall e vos proposed signers,
+  outer_accept e (OUpdateValueOwners vos proposed) signers = true ->
+  vos <> [] /\
+  (forall o, In o vos -> exists a, o = Some a /\ a <> proposed /\
+                                   covered e (vo_signers e signers) a).
+Proof.
+  intros e vos proposed signers H. cbn [outer_accept] in H.
+  apply andb_prop in H as [H HV]. apply andb_prop in H as [H Hnp]. apply andb_prop in H as [Hne Hall].
+  split; [destruct vos; [discriminate|discriminate]|].
+  intros o Ho. rewrite forallb_forall in Hall. specialize (Hall o Ho).
+  destruct o as [a|]; [|discriminate]. exists a. split; auto.
+  assert (Hin : In a (some_addrs vos)) by now apply some_addrs_In.
+  assert (Hn : a <> proposed).
+  { intros ->. apply negb_true_iff in Hnp.
+    assert (mem proposed (some_addrs vos) = true) by now apply mem_In. congruence. }
+  split; auto.
+  destruct (validate_value_owners_signers e (dedup_addrs [] (some_addrs vos)) proposed signers)
+    as [u|] eqn:HVV; [|discriminate].
+  eapply value_owners_signers_sound; [exact HVV| |exact Hn].
+  apply dedup_addrs_In. split; auto.
+Qed.
+
 Theorem outer_sound : forall e op signers,
   outer_accept e op signers = true ->
   (forall a, In a (doc_required_addrs op) -> covered e signers a) /\
@@ -160,7 +243,9 @@ Proof.
     |rollup existing proposed roles
     |rollup owners existing proposed roles
     |rollup owners session old roles
-    |rollup owners roles]; cbn [outer_accept doc_required_addrs doc_role_pool] in *.
+    |rollup owners roles
+    |rollup owners roles
+    |vos proposed]; cbn [outer_accept doc_required_addrs doc_role_pool] in *.
   - split; [intros a []|discriminate].
   - apply andb_prop in H as [_ H]. destruct ex_rollup; cbn [negb] in H.
     + destruct (validate_all_required_parties_signed e existing existing roles signers) as [ds|] eqn:HV;
@@ -230,6 +315,17 @@ Proof.
         now apply required_party_addrs_In.
     + split; [|discriminate]. intros a Ha. eapply without_sound_addrs; [exact H|].
       now apply all_addrs_party_addrs.
+  - destruct rollup; cbn [negb] in H.
+    + destruct roles as [rs|]; [|discriminate].
+      destruct (with_parties_sound _ _ _ _ _ H) as (H1 & H2 & _). split.
+      * now apply nonopt_cover.
+      * intros avail rs' Heq. injection Heq as <- <-. exact H2.
+    + split; [|discriminate]. intros a Ha. eapply without_sound_addrs; [exact H|].
+      now apply all_addrs_party_addrs.
+  - split; [|discriminate]. intros a Ha. apply some_addrs_In in Ha.
+    destruct (update_value_owners_sound _ _ _ _ H) as [_ Hall].
+    destruct (Hall _ Ha) as (a' & Heq & _ & Hc). injection Heq as <-.
+    eapply covered_incl; [|exact Hc]. apply vo_signers_incl.
 Qed.
 
 (** ** Everyone signs directly *)
